@@ -30,6 +30,8 @@ def gen_result(rng, nbits):
 
 
 def gen_slice(rng):
+    if rng.random() < 0.2:          # reversed tails res[:k:-1] / res[:-j:-1]
+        return [None, rng.choice([0, 1, 2, 3, -1, -2, -3]), -1]
     f = lambda: rng.choice([None, None, 0, 1, 2, -1, -2, 5, -7])
     return [f(), f(), rng.choice([None, None, 1, 2, -1, -2, 3])]
 
